@@ -156,3 +156,39 @@ Theorem C06_defaults_url : forall raw ct,
   ip_spy ip = ascii "unknown" /\ ip_rate ip = 100 /\ ip_units ip = ascii "samples" /\ ip_aggregation ip = ascii "sum".
 Proof. exact (fun raw ct => ingest_defaults (url_parse_query raw) ct). Qed.
 Print Assumptions C06_defaults_url.
+
+(* ---- under exactly which series: the composition with storage.ParseKey (Model/Key.v) and Storage.Put through the
+   concrete handler of Proofs/C16Concrete.v.
+   job_request j ms : the request remote.go sends (query through the URL model, Content-Type of the trie, trie body)
+   conc_ingest      : Server.ingest instantiated with Key.parse, Ingest.ingest_params_of, the four body parsers, st_put
+   sid_of_name n    : the series identifier of a name: key text utf8 (normalized (parse n)), application name, tags
+   The handler answers 200 and the new state is the old one after ONE Storage.Put of: that series, the 10 s-normalised
+   window of the job's whole seconds, the profile of the samples, the job's metadata.
+   storage.ParseKey returns a nil error for every string, so no name is refused (there is no 4xx for names). ---- *)
+From Pyro Require Import Model.Key Model.Storage Model.Server Proofs.C16Concrete Proofs.C06SeriesProofs.
+
+Theorem C06_series_exact : forall j ms e st w0 w1,
+  job_ok j -> job_bytes_ok j -> (Ingest.j_start j <= Ingest.j_end j)%N ->
+  Forall (fun kv => (0 < snd kv)%N) ms -> tt_fitsb 1 1 (tt_of_multiset ms) = true ->
+  e_space_ok e = true -> e_retention_thr e = None ->
+  Server.normalize (sec_ns (Ingest.j_start j)) (sec_ns (Ingest.j_end j)) = (w0, w1) ->
+  conc_ingest (job_request j ms) e st =
+  (Status 200,
+   fst (st_put None (put_input_of (sid_of_name (Ingest.j_name j)) w0 w1 (Ingest.profile_of ms) (job_meta j)) st)).
+Proof. exact series_exact. Qed.
+Print Assumptions C06_series_exact.
+
+(* two names are stored as the same series exactly when storage.ParseKey gives them the same labels (tag order,
+   white space around names, keys and values and repeated tags do not matter; the hypothesis excludes finding D15:
+   a '{' smuggled into the application name through the reserved tag) *)
+Theorem C06_same_series : forall n1 n2, bytes_okP n1 -> bytes_okP n2 ->
+  has c_lbrace (app_name (Key.parse n1)) = false -> has c_lbrace (app_name (Key.parse n2)) = false ->
+  (sid_key (sid_of_name n1) = sid_key (sid_of_name n2) <-> Key.parse n1 = Key.parse n2) /\
+  (Key.parse n1 = Key.parse n2 -> sid_of_name n1 = sid_of_name n2).
+Proof. exact same_series_bytes. Qed.
+Print Assumptions C06_same_series.
+
+Example C06_same_series_nonvacuous :
+  sid_key (sid_of_name (Ingest.ascii "app.cpu{ b = 2 ,a=1,b=3}")) = Ingest.ascii "app.cpu{a=1,b=3}" /\
+  Key.parse (Ingest.ascii " app.cpu {a=1, b=3}") = Key.parse (Ingest.ascii "app.cpu{ b = 2 ,a=1,b=3}").
+Proof. vm_compute. split; reflexivity. Qed.
